@@ -171,6 +171,29 @@ def relocate_stream(rng, pid, kinds=ALL_KINDS):
     return out
 
 
+def far_waiter_stream(rng, pid):
+    """waiters *far behind* the turn: a chunk / buffered pull of 24-40 positions is in flight (and the wrapped iterator panics or ends
+    somewhere inside it) while other threads have reserved positions behind it and wait"""
+    out = []
+    i = 0
+    for n in (24, 40):
+        for k in (None, 0, 5, n - 1):
+            for waiters in ([["next"]], [["next"], ["chunk 2 all"]], [["bufnew 3", "bufnext all"], ["next", "next"]]):
+                for first in ("chunk %d all" % n, "bufnew %d ; bufnext all" % n):
+                    L = n + 6
+                    c = Case("%s-far%d" % (pid, i), "iter", script=["S%d" % (3000 + j) for j in range(L)], hint=rng.choice(["exact", "inexact"]))
+                    if k is not None:
+                        c.script = c.script[:k] + ["P"] + c.script[k:]
+                    c.threads = [first.split(" ; ") + ["next"]] + [list(w) + ["foreach 1"] for w in waiters]
+                    nt = len(c.threads)
+                    # thread 0 reserves and enters the wrapped iterator, then everybody else reserves and waits, then thread 0 goes on
+                    c.sched = [0] * (7 if "bufnew" in first else 6) + [t for t in range(1, nt) for _ in range(5)] + [0] * 200
+                    c.owner = "drop"
+                    out.append(c)
+                    i += 1
+    return out
+
+
 def closure_pull_stream(rng, pid):
     """the function given to `for_each` / `enumerate_for_each` itself pulls one more element from the same iterator after each
     call (and processes it): re-entrancy from user code that runs *outside* the turn. Implementation only"""
@@ -881,6 +904,17 @@ def stream_for0(pid, tier, seed):
         cases += half_stream(rng, pid) + nth_stream(rng, pid) + liar_stream(rng, pid) + zst_stream(rng, pid) + pod_stream(rng, pid)
         # a chunk pull in flight while another thread skips: the chunk it had reserved is still delivered in full
         cases += inflight_stream(rng, pid, tier) + last_stream(rng, pid) + forget_stream(rng, pid)
+        # chunk sizes beyond 2^16 (quick) and beyond 2^20 (thorough: a wrapped iterator of 2^20 + 50 elements) on the buffered path
+        c = Case("C03-big0", "iter", script=["S%d" % (1000 + j) for j in range(70007)], hint="inexact", owner="drop")
+        c.threads = [["bufnew 66000", "bufnext 0", "bufnext 1", "bufnext 0"]]
+        c.tags = {"implonly", "nomodel"}
+        cases.append(c)
+        if big:
+            L = (1 << 20) + 50
+            c = Case("C03-big1", "iter", script=["S%d" % (1000 + j) for j in range(L)], hint="inexact", owner="drop")
+            c.threads = [["bufnew 1100000", "bufnext 0", "bufnext 0"]]
+            c.tags = {"implonly", "nomodel"}
+            cases.append(c)
         return cases
     if pid == "C05":
         cases = defects + pulls_stream(rng, tier, pid, prof=dict(nonfused=True), exh=False, n_random=800 if not big else 30000)
@@ -1003,7 +1037,7 @@ def stream_for0(pid, tier, seed):
             for b in bases:
                 b.script = b.script[:k] + ["P"] + b.script[k:]
             cases += exhaustive("C09-px%d" % k, bases, 2, 7 if not big else 10)
-        cases += huge_chunk_stream(rng, pid) + wrapper_droppanic_stream(rng, pid) + inpanic_stream(rng, pid) + stall_stream(rng, pid) + reenter_stream(rng, pid, skip=True) + many_threads_stream(rng, pid)
+        cases += huge_chunk_stream(rng, pid) + wrapper_droppanic_stream(rng, pid) + inpanic_stream(rng, pid) + stall_stream(rng, pid) + reenter_stream(rng, pid, skip=True) + many_threads_stream(rng, pid) + far_waiter_stream(rng, pid)
         return cases
     if pid == "C10":
         return defects + pulls_stream(rng, tier, pid, prof=dict(skip=True, owners=["intoseq all", "intoseq 1", "intoseq 2", "intoseq 0"]), exh=False, n_random=2000 if not big else 80000) + liar_stream(rng, pid) + zst_stream(rng, pid) + \
@@ -1089,7 +1123,7 @@ def stream_for0(pid, tier, seed):
                     if op.split()[0] in ("foreach", "enumforeach") and rng.random() < 0.5:
                         t[j] = op + " panic=%d" % rng.randint(0, 4)
             cases.append(c)
-        cases += droppanic_stream(rng, tier, pid) + wrapper_droppanic_stream(rng, pid) + inpanic_stream(rng, pid) + hintpanic_stream(rng, pid)
+        cases += droppanic_stream(rng, tier, pid) + wrapper_droppanic_stream(rng, pid) + inpanic_stream(rng, pid) + hintpanic_stream(rng, pid) + far_waiter_stream(rng, pid)
         return cases
     if pid == "C19":
         return multi_stream(rng, tier) + [c for c in huge_then_skip_stream(rng, pid, clones=True) if c.kind in ("slice", "range", "vecref") and c.adapt == "none"]
